@@ -270,11 +270,13 @@ func srScenario(t *tr.W, sc *srScript, free bool) string {
 								t.Emit(tr.Ev{"e": "OpenRet", "p": name, "sn": sn, "ok": true, "api": "NewIterator"})
 								t.Emit(tr.Ev{"e": "CloseCall", "p": name, "sn": sn, "api": "Iterator.Close"})
 								it.Close()
+								return // one is enough for the verdict
 							}
 						} else if r.snaps[sn-1].Open() {
 							t.Emit(tr.Ev{"e": "OpenRet", "p": name, "sn": sn, "ok": true, "api": "Open"})
 							t.Emit(tr.Ev{"e": "CloseCall", "p": name, "sn": sn, "api": "Close"})
 							r.snaps[sn-1].Close()
+							return
 						}
 					}
 					t.Emit(tr.Ev{"e": "OpenRet", "p": name, "sn": 1, "ok": false, "api": "Open / NewIterator (20000 attempts on released snapshots)"})
